@@ -274,6 +274,20 @@ def _value_case(case, res):
     if k != 'depth':
       res.label('has:' + k)
   sig = _marker_sig(marker)
+  # a class defined again under the same name (a notebook cell run twice, a factory called twice): values of the
+  # latest definition come back as instances of it, whatever was loaded before
+  cls = _define_again()
+  try:
+    held = cls(x=1)
+    back = pg.from_json(pg.to_json(held))
+  except RecursionError:
+    raise
+  except Exception as e:   # pylint: disable=broad-except
+    return res.violate('round trip of an instance of a re-defined class raised %r' % e, law='roundtrip-raises', route='json-redefined',
+                       exc=type(e).__name__, **sig)
+  if type(back) is not cls:
+    return res.violate('an instance of the class %s defined again came back as an instance of an earlier definition' % cls.__name__,
+                       law='roundtrip-type', route='json-redefined', **sig)
   base = snap(v)
   routes = []
   def json_twice():
@@ -376,6 +390,12 @@ def _loose_snap(v):
   if callable(v) or isinstance(v, type):
     return ('callable', getattr(v, '__qualname__', repr(v)))
   return (type(v).__name__, repr(v))
+
+
+def _define_again():
+  class Redefined(pg.Object):     # pylint: disable=unused-variable
+    x: pg.typing.Any() = 0
+  return Redefined
 
 
 class _JsonConsumed(Exception):
